@@ -5,7 +5,7 @@
    object of the caller changes.  Ring_alias_free = all 18 operations of the ring interface. *)
 From Coq Require Import ZArith List.
 Import ListNotations.
-From C15 Require Import Model ModelPoly ModelRm ModelExt ProofsBase ProofsMr ProofsMg ProofsMi ProofsInt ProofsOld ProofsRm ProofsPoly ProofsExt.
+From C15 Require Import Model ModelPoly ModelRm ModelExt ModelRu ModelRat ProofsBase ProofsMr ProofsMg ProofsMi ProofsInt ProofsOld ProofsRm ProofsRu ProofsRat ProofsPoly ProofsExt.
 Local Open Scope Z_scope.
 
 Theorem C15_modular_ruint_alias_free : forall W p same, Ring_alias_free (mr_op W p same).
@@ -208,3 +208,88 @@ Theorem C15_poly_pmod_unguarded_refuted :
     snd (P_pmod_unguarded 101 (U r) (U a) (U b) h) (U r) <> ppmr 101 (h (U a)) (h (U b)).
 Proof. exact poly_pmod_unguarded_refuted. Qed.
 Print Assumptions C15_poly_pmod_unguarded_refuted.
+(* ==== PropertiesP4.snip — phase 4 additions to Properties.v.
+   Add to the Require line:  ModelRu ModelRat ProofsRu ProofsRat     (ModelRm / ProofsRm are already there)
+   C15_rmint_alias_free is unchanged in text; rm_op now has op 30 = exp(a, b, const ruint<K>& c) (pure destination). *)
+
+(* ---- rmint<K,MG>: exp(a, b, const ruint<K>& c) (rmgexp.h: 16-entry window table; rmbexp.h: exp_mod).  The exponent is an
+        OBJECT: destination q, base a, exponent e are arbitrary locations (q = e is exp(x, b, x.Value)); nl limbs.
+        The value left in q is that of the call on three distinct objects holding the same values; nothing else changes *)
+Theorem C15_rmint_expw_alias_free : Expw_alias_free rm_expw.
+Proof. exact rm_expw_alias_free. Qed.
+Print Assumptions C15_rmint_expw_alias_free.
+(* ... and it is the fixed function expw_val of the VALUES of base and exponent (MGA: the windowed Montgomery product
+   expw_pure; MGI: expmod) *)
+Theorem C15_rmint_expw_value :
+  forall mg W p p1 r nl (h : store) (q a e : positive),
+    let h' := exec (rm_expw W mg p p1 r nl (U q) (U a) (U e)) h in
+    h' (U q) = expw_val mg W p p1 r nl (h (U a)) (h (U e)) /\ (forall l, l <> q -> h' (U l) = h (U l)).
+Proof. exact rm_expw_value. Qed.
+Print Assumptions C15_rmint_expw_value.
+(* the body without `const ruint<K> c(c0);` (pointers into the caller's exponent, limbs read during the loop):
+   right only when the exponent is not the destination's own Value [hypothesis e <> q] *)
+Theorem C15_old_rmint_expw_alias_free_partial : Expw_old_alias_free_partial.
+Proof. exact rm_expw_old_alias_free_partial. Qed.
+Print Assumptions C15_old_rmint_expw_alias_free_partial.
+(* rmint<7,MGA>, p = 1000000007, base = image of 7, exponent = the Value of the image of 5:
+   exp(x, b, x.Value) leaves 524208557, a separate ruint with the same value leaves 483631076 *)
+Theorem C15_old_rmint_expw_refuted : ~ Expw_alias_free rm_expw_old.
+Proof. exact rm_expw_old_refuted. Qed.
+Print Assumptions C15_old_rmint_expw_refuted.
+
+(* ---- Rational::operator*= / operator/= (givratmuldiv.C) = QField<Rational>::mulin / divin, all branches, both values of
+        Rational::flags (noreduce), t and r the same Rational object or disjoint: the pair (num, den) left in t is EXACTLY
+        that of the call on two distinct objects holding the same values; no other Rational changes *)
+Theorem C15_qfield_rational_muldiv_alias_free : QMulDiv_alias_free.
+Proof. exact qmuldiv_alias_free. Qed.
+Print Assumptions C15_qfield_rational_muldiv_alias_free.
+(* seeded change C15-m8 (NoReduce block in front of the equal-denominator block): r /= r on 2/3 leaves 6/18 *)
+Theorem C15_rational_diveq_m8_refuted : ~ InplaceQ (Rat_diveq_m8 true).
+Proof. exact diveq_m8_refuted. Qed.
+Print Assumptions C15_rational_diveq_m8_refuted.
+
+(* ---- RecInt left_shift(b, a, d) (rushift.h) over halves: b == a or two objects, every shift count / branch *)
+Theorem C15_recint_left_shift_alias_free : Shift_alias_free ru_left_shift.
+Proof. exact left_shift_alias_free. Qed.
+Print Assumptions C15_recint_left_shift_alias_free.
+(* seeded change C15-m1 (Low half written before a.Low is read again): left_shift(a, a, 4), a = 0xF000000000000001 *)
+Theorem C15_recint_left_shift_m1_refuted : ~ Shift_alias_free ru_left_shift_m1.
+Proof. exact left_shift_m1_refuted. Qed.
+Print Assumptions C15_recint_left_shift_m1_refuted.
+(* ---- RecInt lmul_naive(ah, al, b, c) (rumul.h, "safe"): ah, al may each be b or c (ah <> al) *)
+Theorem C15_recint_lmul_naive_alias_free : Lmul_alias_free ru_lmul_naive.
+Proof. exact lmul_naive_alias_free. Qed.
+Print Assumptions C15_recint_lmul_naive_alias_free.
+(* ... and ah|al = b * c for halves in range [0 < Wh, halves of b, c in [0, Wh), ah <> al] *)
+Theorem C15_recint_lmul_naive_value : Lmul_naive_value.
+Proof. exact lmul_naive_value. Qed.
+Print Assumptions C15_recint_lmul_naive_value.
+(* lmul_kara ("FIXME NOT safe"): lmul_kara(b, al, b, c), b = 3, c = 5 leaves 15 * 2^64 instead of 15 *)
+Theorem C15_recint_lmul_kara_refuted : ~ Lmul_alias_free ru_lmul_kara.
+Proof. exact lmul_kara_refuted. Qed.
+Print Assumptions C15_recint_lmul_kara_refuted.
+(* ---- phase 4 (poly): div(Q,A,B) and invmod(S0,A,B) statement by statement *)
+(* div(Q,A,B) (givpoly1muldiv.inl:230-269): Q may be A, B or both; the value is pdivv (the code's three routes on values) *)
+Theorem C15_poly_div_alias_free : Poly_div_alias_free.
+Proof. exact poly_div_alias_free. Qed.
+Print Assumptions C15_poly_div_alias_free.
+(* repair 1eb01b7 undone (B[0] read through a reference after Q has been written): div(B, A, B), A = 6X+6, B = 2, GF(101) *)
+Theorem C15_poly_div_b0_reverted_refuted :
+  exists (h : pstore) (q a b : positive),
+    pexec (P_div_b0_reverted 101 (U q) (U a) (U b)) h (U q) <> pdivv 101 (h (U a)) (h (U b)).
+Proof. exact poly_div_b0_reverted_refuted. Qed.
+Print Assumptions C15_poly_div_b0_reverted_refuted.
+(* invmod(S0,A,B) (givpoly1gcd.inl:131-185): S0 may be A, B or both, A may be B *)
+Theorem C15_poly_invmod_alias_free : Poly_invmod_alias_free.
+Proof. exact poly_invmod_alias_free. Qed.
+Print Assumptions C15_poly_invmod_alias_free.
+(* S0 initialised before A and B are saved into F and G: invmod(A, A, B) over GF(101) *)
+Theorem C15_poly_invmod_s0_first_refuted :
+  exists (h : pstore) (r a b : positive),
+    pexec (P_invmod_s0_first 101 (U r) (U a) (PL (U b))) h (U r) <> pinvmodv 101 (h (U a)) (h (U b)).
+Proof. exact poly_invmod_s0_first_refuted. Qed.
+Print Assumptions C15_poly_invmod_s0_first_refuted.
+(* modin(A,B) (givpoly1muldiv.inl:333-369), the in place remainder round by round: A may be B *)
+Theorem C15_poly_modin_alias_free : Poly_modin_alias_free.
+Proof. exact poly_modin_alias_free. Qed.
+Print Assumptions C15_poly_modin_alias_free.
